@@ -93,3 +93,16 @@ def in_range(r1, r2):
 def covers(p1, p2, r1, r2):
     """envelope position (p1,p2) is at or after the requested (r1,r2)"""
     return z3.Or(Z(p1) > Z(r1), z3.And(Z(p1) == Z(r1), Z(p2) >= Z(r2)))
+
+
+# ---------------------------------------------------------------------------------------------- text strings (A-PY)
+from pyvc.interp import ENC, STRLEN  # noqa: E402
+from pyvc.smt import Str, str_lit  # noqa: E402
+
+_s = z3.Const("a!s", Str)
+_cid = z3.Int("a!codec")
+REG.axiom(z3.ForAll([_s], z3.And(STRLEN(_s) >= 0, (STRLEN(_s) == 0) == (_s == str_lit(""))), patterns=[STRLEN(_s)]), "len(s) == 0 iff s == ''")
+REG.axiom(
+    z3.ForAll([_cid, _s], z3.And(blen(ENC(_cid, _s)) >= STRLEN(_s), (blen(ENC(_cid, _s)) == 0) == (STRLEN(_s) == 0)), patterns=[ENC(_cid, _s)]),
+    "an encoding (utf-8 / utf-16-le) has at least one byte per character and is empty iff the text is empty",
+)
